@@ -56,6 +56,11 @@ type fmt struct {
 
 func (f *fmt) clearflags() {
 	f.fmtFlags = fmtFlags{}
+	// CUSTOM: also forget the previous width and precision (as newer
+	// versions of Go's fmt do), so that Formatter.Width/Precision do not
+	// report values left over from an earlier directive or call.
+	f.wid = 0
+	f.prec = 0
 }
 
 func (f *fmt) init(buf *buffer) {
